@@ -1640,6 +1640,12 @@ impl<'a> G<'a> {
                             _ => self.update_stmt(t, true),
                         };
                         ops.push(Op::Stmt(s));
+                        // the session reads its own uncommitted changes — through the index and through the table
+                        if self.rng.chance(1, 3) {
+                            self.tag("q.in-session");
+                            let q = self.select();
+                            ops.push(Op::Stmt(Stmt::Select(q)));
+                        }
                     }
                     if rollback {
                         self.tag("hist.rollback");
